@@ -85,8 +85,9 @@ func c13CommentsSkipped(r *an.Run) {
 		r.Check(good, short(f)+"|only-non-comments", call.Pos(), "a line is handed to the readers only when it is not a comment; comment lines are consumed inside the loop")
 	}
 	// isComment: first non-space byte is '#'
-	trims := an.CallsTo(ic, "bytes.TrimLeftFunc", "bytes.TrimSpace", "bytes.TrimLeft")
-	okTrim := len(trims) == 1 && trims[0].Common().Args[0] == ssa.Value(ic.Params[0])
+	trims := an.CallsTo(ic, "bytes.TrimLeftFunc", "bytes.TrimSpace", "bytes.TrimLeft", "strings.TrimLeftFunc", "strings.TrimSpace", "strings.TrimLeft")
+	// (the line itself, or its conversion to a string)
+	okTrim := len(trims) == 1 && an.Unwrap(unconvert(trims[0].Common().Args[0])) == ssa.Value(ic.Params[0])
 	r.Check(okTrim, short(ic)+"|trim", ic.Pos(), "isComment ignores leading white space")
 	hash := false
 	for _, ret := range an.Returns(ic) {
@@ -102,6 +103,31 @@ func c13CommentsSkipped(r *an.Run) {
 					}
 				}
 			}
+		}
+	}
+	// or: strings.HasPrefix / bytes.HasPrefix(trimmed, "#")
+	for _, c := range an.CallsTo(ic, "strings.HasPrefix", "bytes.HasPrefix") {
+		a := c.Common().Args
+		isHash := false
+		if s, ok := an.ConstString(a[1]); ok && s == "#" {
+			isHash = true
+		}
+		fromTrim := false
+		for v := range an.BackSlice(a[0], an.SliceOpts{}) {
+			if len(trims) == 1 && v == trims[0].(ssa.Value) {
+				fromTrim = true
+			}
+		}
+		returned := false
+		for _, ret := range an.Returns(ic) {
+			for v := range an.BackSlice(ret.Results[0], an.SliceOpts{}) {
+				if v == c.(ssa.Value) {
+					returned = true
+				}
+			}
+		}
+		if isHash && fromTrim && returned {
+			hash = true
 		}
 	}
 	r.Check(hash, short(ic)+"|hash", ic.Pos(), "and tests that the first remaining byte is '#'")
@@ -565,5 +591,16 @@ func c13OrderOnly(r *an.Run) {
 			}
 			r.Fail(short(g)+"|call|"+name, c.Pos(), "connectDots calls %s", name)
 		}
+	}
+}
+
+// unconvert strips string <-> []byte conversions.
+func unconvert(v ssa.Value) ssa.Value {
+	for {
+		c, ok := v.(*ssa.Convert)
+		if !ok {
+			return v
+		}
+		v = c.X
 	}
 }
